@@ -131,14 +131,19 @@ int ref_gate(const struct ref_line *r)
         case K_READ:
                 if (c->only_test) return RG_ERROR;
                 if (strlen(c->name) + 2 > W.capA) return RG_ERROR;
-                if (ref_readable(c)) return RG_READ;
+                if (ref_readable(c)) {          /* the automatic text is produced first: if it does not fit the command buffer the request ends with ERROR before any handler */
+                        static char t[70000]; int n = ref_fmt_read(c, t, sizeof t);
+                        return (n < 0 || (size_t)n + 1 > W.capA) ? RG_ERROR : RG_READ;
+                }
                 return c->read ? RG_READ : RG_ERROR;
         case K_WRITE:
                 if (c->only_test) return RG_ERROR;
                 if (ref_writable(c)) return RG_WRITE;
                 return c->write ? RG_WRITE : RG_ERROR;
-        case K_TEST:
-                return RG_TEST;
+        case K_TEST: {
+                static char t[70000]; int n = ref_fmt_test(c, r->crlf ? "\r\n" : "\n", t, sizeof t);
+                return (n < 0 || (size_t)n + 1 > W.capA) ? RG_ERROR : RG_TEST;
+        }
         }
         return RG_ERROR;
 }
